@@ -8,6 +8,7 @@ CONSTANTS
   OptSet <- OptsAll
   AbortCancels = TRUE
   GenChecksCtx = TRUE
+  GenEofByIs = FALSE
   ResolverSame = TRUE
   ExcludedConsulted = TRUE
   Mut = "ctxdefault"
